@@ -110,9 +110,84 @@ def cases(tier, seed):
         i += 1
         c = rc.gen_case(rng, "v2", tier)
         yield dict(c, id=i)
+    yield from param_cases(tier, seed, i)
+
+
+def param_cases(tier, seed, i0):
+    """The library's parameterised rail (`content safety check input $model=<name>`, Colang 1.0) configured 2-3 times with
+    different parameter values: ALL accept/reject matrices over 2 turns (k=2) resp. a seeded sample (k=3)."""
+    i = i0
+    rng = random.Random(99 + seed)
+    for mode in ("general", "passthrough"):
+        for vs in itertools.product(["ok", "block"], repeat=4):
+            i += 1
+            yield {"id": i, "fam": "param", "mode": mode, "k": 2, "turns": 2, "vs": list(vs), "same": False, "cid": "p%d" % i}
+        for _ in range(8 if tier == "quick" else 64):
+            i += 1
+            yield {"id": i, "fam": "param", "mode": mode, "k": 3, "turns": 3, "vs": [rng.choice(["ok", "ok", "block"]) for _x in range(9)], "same": rng.random() < 0.3, "cid": "p%d" % i}
+
+
+def run_param(case):
+    from .railsconv import rails
+
+    L = rails.load()
+    log = rails.Log()
+    k, turns, vs, cid = case["k"], case["turns"], case["vs"], case["cid"]
+    names = ["m%d" % j for j in range(k)] if not case.get("same") else ["m0"] * k  # `same`: one parameter value listed k times
+    y = rails.MAIN_MODELS + ("passthrough: True\n" if case["mode"] == "passthrough" else "") + "rails:\n  input:\n    flows:\n" + "".join("      - content safety check input $model=%s\n" % n for n in names)
+    base = {"key": repr((case["mode"], k, turns, vs, case.get("same"))), "nontrivial": "block" in vs, "ver": "v1", "fam": "param",
+            "sample": {"family": "library rail configured several times with different parameters", "config": y, "verdicts": vs}}
+    obs = {"param_turns": 0, "param_rail_calls": 0, "param_rejections": 0}
+    state = {"t": 0, "calls": []}
+
+    async def content_safety_check_input(context=None):
+        ctx = context or {}
+        state["calls"].append((ctx.get("model"), ctx.get("user_message")))
+        idx = len(state["calls"]) - 1
+        v = vs[state["t"] * k + idx] if idx < k else "ok"
+        return {"allowed": v != "block", "policy_violations": []}
+
+    try:
+        cfg = L["RailsConfig"].from_content("", y)
+        llm = L["RecLLM"](script=lambda prompt: "BOT-%s-%d answer" % (cid, state["t"]), log=log)
+        app = L["LLMRails"](cfg, llm=llm)
+        app.register_action(content_safety_check_input, "content_safety_check_input")
+    except Exception as e:
+        return dict(base, verdict="inconclusive", reason="app-build-failed:%s" % type(e).__name__, detail=str(e)[:300], nontrivial=False)
+    msgs = []
+    for t in range(turns):
+        state["t"], state["calls"] = t, []
+        log.items[:] = []
+        text = "USER-%s-%d question" % (cid, t)
+        msgs.append({"role": "user", "content": text})
+        try:
+            reply = app.generate(messages=list(msgs))
+        except Exception as e:
+            return dict(base, verdict="violated", what="generate-raised-without-fault", observed=obs, witness={"turn": t, "exception": "%s: %s" % (type(e).__name__, str(e)[:300])})
+        tv = vs[t * k:(t + 1) * k]
+        nb = tv.index("block") if "block" in tv else None
+        want_calls = [(names[j], text) for j in range(k if nb is None else nb + 1)]
+        llm_calls = [e for e in log.items if e["kind"] == "llm"]
+        content = reply.get("content") if isinstance(reply, dict) else None
+        obs["param_turns"] += 1
+        obs["param_rail_calls"] += len(state["calls"])
+        obs["param_rejections"] += int(nb is not None)
+        w = {"turn": t, "config": y, "verdicts_of_the_turn": tv, "rails_ran_with": state["calls"], "expected": want_calls, "reply": str(content)[:200], "llm_calls": len(llm_calls)}
+        if state["calls"] != want_calls:
+            return dict(base, verdict="violated", what="input-rail-calls-differ", observed=obs, witness=w)
+        if nb is not None and llm_calls:
+            return dict(base, verdict="violated", what="llm-called-after-input-rejection", observed=obs, witness=w)
+        if nb is not None and content != "I'm sorry, I can't respond to that.":
+            return dict(base, verdict="violated", what="reply-is-not-the-rejecting-rails-refusal", observed=obs, witness=w)
+        if nb is None and content != "BOT-%s-%d answer" % (cid, t):
+            return dict(base, verdict="violated", what="no-generation-for-accepted-message", observed=obs, witness=w)
+        msgs.append({"role": "assistant", "content": content})
+    return dict(base, verdict="held", observed=obs)
 
 
 def run_case(case):
+    if case.get("fam") == "param":
+        return run_param(case)
     r = run_case_for(TAG, case)
     spec = case["spec"]
     if r.get("verdict") == "violated" and spec.get("ver") == "v1":
